@@ -899,6 +899,71 @@ wall('pointer receiver on the L2 sequence helpers', ('x/opchild/keeper/sequences
 wall('pointer receiver on the validator diff', ('x/opchild/keeper/val_state_change.go','func (k Keeper) ApplyAndReturnValidatorSetUpdates(','func (k *Keeper) ApplyAndReturnValidatorSetUpdates('))
 wseed('C11c','C11.R1'); wseed('C12c','C12.R3'); wseed('C13c','C13.R9'); wseed('C14c','C14.R1'); wseed('C15c','C15.R3')
 wseed('C16c','C16.R3'); wseed('C17c','C17.R2'); wseed('C18c','C18.R3'); wseed('C19c','C19.R4'); wseed('C20c','C20.R1')
+
+# --- mutants written with package slices (the engine models Contains/Index/ContainsFunc/IndexFunc as the loop they stand for)
+LFIMP=(LF, 'import (\n\t"context"\n', 'import (\n\t"context"\n\t"slices"\n')
+LFLOOP='\t\t\tfor _, addr := range whitelist {\n\t\t\t\tif addr == payer || addr == granter {\n\t\t\t\t\treturn true\n\t\t\t\t}\n\t\t\t}\n'
+w('C20', 'free lane via slices.ContainsFunc with a negated payer comparison', 'C20.R3', LFIMP,
+  (LF, LFLOOP, '\t\t\tif slices.ContainsFunc(whitelist, func(addr string) bool { return addr != payer || addr == granter }) {\n\t\t\t\treturn true\n\t\t\t}\n'))
+w('C20', 'free lane via slices.ContainsFunc that ignores the element', 'C20.R3', LFIMP,
+  (LF, LFLOOP, '\t\t\tif slices.ContainsFunc(whitelist, func(addr string) bool { return payer != "" || granter != "" }) {\n\t\t\t\treturn true\n\t\t\t}\n'))
+w('C20', 'BENIGN: free lane via slices.ContainsFunc', '', LFIMP,
+  (LF, LFLOOP, '\t\t\tif slices.ContainsFunc(whitelist, func(addr string) bool { return addr == payer || addr == granter }) {\n\t\t\t\treturn true\n\t\t\t}\n'))
+w('C20', 'BENIGN: free lane via two slices.Contains', '', LFIMP,
+  (LF, LFLOOP, '\t\t\tif slices.Contains(whitelist, payer) || slices.Contains(whitelist, granter) {\n\t\t\t\treturn true\n\t\t\t}\n'))
+w('C20', 'free lane via !slices.Contains', 'C20.R3', LFIMP,
+  (LF, LFLOOP, '\t\t\tif !slices.Contains(whitelist, payer) || slices.Contains(whitelist, granter) {\n\t\t\t\treturn true\n\t\t\t}\n'))
+CMIMP=(CM, '\t"fmt"\n\t"strconv"\n', '\t"fmt"\n\t"slices"\n\t"strconv"\n')
+EXLOOP='\tisIncluded := false\n\tfor _, bridgeExecutor := range bridgeExecutors {\n\t\tif bytes.Equal(bridgeExecutor, senderAddr) {\n\t\t\tisIncluded = true\n\t\t}\n\t}\n'
+w('C12', 'executor check via slices.ContainsFunc with !bytes.Equal', 'C12.R3', CMIMP,
+  (CM, EXLOOP, '\tisIncluded := slices.ContainsFunc(bridgeExecutors, func(e sdk.AccAddress) bool { return !bytes.Equal(e, senderAddr) })\n'))
+w('C12', 'executor check via slices.IndexFunc compared with -1 the wrong way round', 'C12.R3', CMIMP,
+  (CM, EXLOOP, '\tisIncluded := slices.IndexFunc(bridgeExecutors, func(e sdk.AccAddress) bool { return bytes.Equal(e, senderAddr) }) < 0\n'))
+w('C12', 'BENIGN: executor check via slices.IndexFunc >= 0', '', CMIMP,
+  (CM, EXLOOP, '\tisIncluded := slices.IndexFunc(bridgeExecutors, func(e sdk.AccAddress) bool { return bytes.Equal(e, senderAddr) }) >= 0\n'))
+HTX='x/ophost/types/tx.go'
+HTXIMP=(HTX, 'import (\n\t"cosmossdk.io/core/address"', 'import (\n\t"slices"\n\n\t"cosmossdk.io/core/address"')
+PRLOOP='\tfor _, proof := range msg.WithdrawalProofs {\n\t\tif len(proof) != 32 {\n\t\t\treturn ErrInvalidHashLength.Wrap("withdrawal_proofs")\n\t\t}\n\t}\n'
+w('C03', 'proof lengths via slices.ContainsFunc with > 32', 'C03.R4', HTXIMP,
+  (HTX, PRLOOP, '\tif slices.ContainsFunc(msg.WithdrawalProofs, func(proof []byte) bool { return len(proof) > 32 }) {\n\t\treturn ErrInvalidHashLength.Wrap("withdrawal_proofs")\n\t}\n'))
+w('C03', 'proof lengths via slices.ContainsFunc, result negated', 'C03.R4', HTXIMP,
+  (HTX, PRLOOP, '\tif !slices.ContainsFunc(msg.WithdrawalProofs, func(proof []byte) bool { return len(proof) != 32 }) {\n\t\treturn ErrInvalidHashLength.Wrap("withdrawal_proofs")\n\t}\n'))
+
+# --- the explicit cursor form of Walk (Iterate / Valid / Next / KeyValue / Close)
+EC='x/opchild/keeper/executor_change.go'
+ECWALK='\terr := k.Validators.Walk(ctx, nil, func(key []byte, validator types.Validator) (stop bool, err error) {\n\t\tvalidator.ConsPower = 0\n\t\terr = k.Validators.Set(ctx, key, validator)\n\t\treturn false, err\n\t})\n\tif err != nil {\n\t\treturn err\n\t}\n'
+def eciter(body):
+    return '\titer, err := k.Validators.Iterate(ctx, nil)\n\tif err != nil {\n\t\treturn err\n\t}\n\tdefer iter.Close()\n\tfor ; iter.Valid(); iter.Next() {\n\t\tkv, err := iter.KeyValue()\n\t\tif err != nil {\n\t\t\treturn err\n\t\t}\n'+body+'\t}\n'
+w('C14', 'BENIGN: ChangeExecutor zeroes through an explicit cursor', '', (EC, ECWALK, eciter('\t\tv := kv.Value\n\t\tv.ConsPower = 0\n\t\tif err := k.Validators.Set(ctx, kv.Key, v); err != nil {\n\t\t\treturn err\n\t\t}\n')))
+w('C14', 'cursor form: loop left after the first validator', 'C14.R3', (EC, ECWALK, eciter('\t\tv := kv.Value\n\t\tv.ConsPower = 0\n\t\tif err := k.Validators.Set(ctx, kv.Key, v); err != nil {\n\t\t\treturn err\n\t\t}\n\t\tbreak\n')))
+w('C14', 'cursor form: record written back unchanged', 'C14.R3', (EC, ECWALK, eciter('\t\tv := kv.Value\n\t\tif err := k.Validators.Set(ctx, kv.Key, v); err != nil {\n\t\t\treturn err\n\t\t}\n')))
+w('C14', 'cursor form: records with power 1 are skipped', 'C14.R3', (EC, ECWALK, eciter('\t\tv := kv.Value\n\t\tif v.ConsPower == 1 {\n\t\t\tcontinue\n\t\t}\n\t\tv.ConsPower = 0\n\t\tif err := k.Validators.Set(ctx, kv.Key, v); err != nil {\n\t\t\treturn err\n\t\t}\n')))
+w('C14', 'cursor form: range ends below the last key', 'C14.R3', (EC, '\t"context"\n\n\terrorsmod', '\t"context"\n\n\t"cosmossdk.io/collections"\n\terrorsmod'), (EC, ECWALK, eciter('\t\tv := kv.Value\n\t\tv.ConsPower = 0\n\t\tif err := k.Validators.Set(ctx, kv.Key, v); err != nil {\n\t\t\treturn err\n\t\t}\n').replace('Iterate(ctx, nil)','Iterate(ctx, new(collections.Range[[]byte]).EndExclusive([]byte{0x80}))')))
+
+HWD='x/ophost/keeper/withdrawal.go'
+PWWALK='\treturn k.ProvenWithdrawals.Walk(ctx, collections.NewPrefixedPairRange[uint64, []byte](bridgeId), func(key collections.Pair[uint64, []byte], value bool) (stop bool, err error) {\n\t\twithdrawalHash := [32]byte{}\n\t\tcopy(withdrawalHash[:], key.K2())\n\t\treturn cb(bridgeId, withdrawalHash)\n\t})\n'
+def pwiter(tail, rng='collections.NewPrefixedPairRange[uint64, []byte](bridgeId)', key='kv.Key.K2()'):
+    return '\titer, err := k.ProvenWithdrawals.Iterate(ctx, '+rng+')\n\tif err != nil {\n\t\treturn err\n\t}\n\tdefer iter.Close()\n\tfor ; iter.Valid(); iter.Next() {\n\t\tkv, err := iter.KeyValue()\n\t\tif err != nil {\n\t\t\treturn err\n\t\t}\n\t\twithdrawalHash := [32]byte{}\n\t\tcopy(withdrawalHash[:], '+key+')\n\t\tstop, err := cb(bridgeId, withdrawalHash)\n\t\tif err != nil {\n\t\t\treturn err\n\t\t}\n'+tail+'\t}\n\treturn nil\n'
+w('C16', 'BENIGN: proven withdrawals exported through an explicit cursor', '', (HWD, PWWALK, pwiter('\t\tif stop {\n\t\t\treturn nil\n\t\t}\n')))
+w('C16', 'cursor form: export stops after the first proven withdrawal', 'C16.R2', (HWD, PWWALK, pwiter('\t\tif stop || len(withdrawalHash) == 32 {\n\t\t\treturn nil\n\t\t}\n')))
+w('C16', 'cursor form: export walks the proven withdrawals of bridge 1', 'C16.R2', (HWD, PWWALK, pwiter('\t\tif stop {\n\t\t\treturn nil\n\t\t}\n', rng='collections.NewPrefixedPairRange[uint64, []byte](1)')))
+
+HGEN='x/ophost/keeper/genesis.go'
+w('C16', 'ophost export: the bridge walk stops after the first bridge', 'C16.R2',
+  (HGEN, '\t\t\tBatchInfos:        batchInfos,\n\t\t})\n\n\t\treturn false, nil', '\t\t\tBatchInfos:        batchInfos,\n\t\t})\n\n\t\treturn true, nil'))
+w('C16', 'ophost export: the token pair walk stops after the first pair', 'C16.R2',
+  (HGEN, '\t\t\ttokenPairs = append(tokenPairs, tokenPair)\n\t\t\treturn false, nil', '\t\t\ttokenPairs = append(tokenPairs, tokenPair)\n\t\t\treturn true, nil'))
+w('C16', 'ophost export: proposals with output index 1 are skipped', 'C16.R2',
+  (HGEN, '\t\t\tproposals = append(proposals, types.WrappedOutput{', '\t\t\tif key.K2() == 1 {\n\t\t\t\treturn false, nil\n\t\t\t}\n\t\t\tproposals = append(proposals, types.WrappedOutput{'))
+w('C16', 'ophost export: batch infos stop once two were collected', 'C16.R2',
+  (HGEN, '\t\t\tbatchInfos = append(batchInfos, batchInfo)\n\t\t\treturn false, nil', '\t\t\tbatchInfos = append(batchInfos, batchInfo)\n\t\t\treturn len(batchInfos) == 2, nil'))
+w('C16', 'opchild export: denom pairs stop after the first', 'C16.R2',
+  (CG2, '\t\tdenomPairs = append(denomPairs, types.DenomPair{Denom: denom, BaseDenom: baseDenom})\n\t\treturn false, nil', '\t\tdenomPairs = append(denomPairs, types.DenomPair{Denom: denom, BaseDenom: baseDenom})\n\t\treturn true, nil'))
+w('C16', 'opchild export: last powers of zero are skipped', 'C16.R2',
+  (CG2, '\t\tlastValidatorPowers = append(lastValidatorPowers, types.LastValidatorPower{Address: sdk.ValAddress(addr).String(), Power: power})', '\t\tif power == 0 {\n\t\t\treturn false, nil\n\t\t}\n\t\tlastValidatorPowers = append(lastValidatorPowers, types.LastValidatorPower{Address: sdk.ValAddress(addr).String(), Power: power})'))
+
+w('C14', 'ChangeExecutor: the zeroing walk stops after two validators', 'C14.R3',
+  (EC, ECWALK, '\tn := 0\n\terr := k.Validators.Walk(ctx, nil, func(key []byte, validator types.Validator) (stop bool, err error) {\n\t\tvalidator.ConsPower = 0\n\t\terr = k.Validators.Set(ctx, key, validator)\n\t\tn++\n\t\treturn n == 2, err\n\t})\n\tif err != nil {\n\t\treturn err\n\t}\n'))
 #@@MORE@@
 for p,l in W.items():
     json.dump(l, open(os.path.join(HERE,p+'.json'),'w'), indent=1)
